@@ -113,11 +113,38 @@ def record(binname, args, workdir, timeout=1500, env=None):
 REJECT_RE = re.compile(r'<<"REJECT", (-?\d+), \{(.*?)\}>>')
 
 
-def validate(trace_module, tracefile, workdir, timeout=1500, cfg="Trace.cfg", heap="6g"):
-    """T: trace validation of recorded observations. Returns (lines, rejects{id: [clauses]})."""
+def validate(trace_module, tracefile, workdir, timeout=1500, cfg="Trace.cfg", heap="6g", parallel=1):
+    """T: trace validation of recorded observations. Returns (lines, rejects{id: [clauses]}).
+    With parallel > 1 the trace is cut into that many chunks validated by concurrent TLC runs
+    (stateless trace specifications only: every line is judged on its own)."""
     nlines = sum(1 for _ in open(tracefile))
     if nlines == 0:
         raise ToolError("empty trace " + tracefile)
+    if parallel > 1 and nlines >= 4 * parallel:
+        import concurrent.futures
+        lines = open(tracefile).readlines()
+        per = (nlines + parallel - 1) // parallel
+        chunks = []
+        for k in range(parallel):
+            part = lines[k * per:(k + 1) * per]
+            if not part:
+                continue
+            d = os.path.join(workdir, "chunk%d" % k)
+            os.makedirs(d, exist_ok=True)
+            path = os.path.join(d, "trace.ndjson")
+            with open(path, "w") as f:
+                f.writelines(part)
+            chunks.append((d, path))
+        t0 = time.time()
+        with concurrent.futures.ThreadPoolExecutor(max_workers=parallel) as ex:
+            results = list(ex.map(lambda c: validate(trace_module, c[1], c[0], timeout=timeout, cfg=cfg, heap="2g"), chunks))
+        rejects = {}
+        for _, r in results:
+            rejects.update(r)
+        for d, _ in chunks:
+            shutil.rmtree(d, ignore_errors=True)
+        log("T %s: %d lines validated in %d parallel chunks, %d rejected, %.0fs" % (trace_module, nlines, len(chunks), len(rejects), time.time() - t0))
+        return nlines, rejects
     rc, text, dt = tlc(trace_module, cfg, workdir, workers=1, timeout=timeout,
                        env={"TRACE": tracefile,
                             "JAVA_TOOL_OPTIONS": "-Xss1g -Xmx%s -Dtlc2.tool.queue.IStateQueue=StateDeque" % heap})
@@ -154,6 +181,12 @@ class Result:
         self.extra = {}
         self.assumptions = []
         self.t0 = time.time()
+        # replay files of an earlier run with the same tier and seed are stale
+        for f in glob.glob(os.path.join(ROOT, "replays", prop, "%s_seed%d_*" % (tier, seed))):
+            try:
+                os.remove(f)
+            except OSError:
+                pass
 
     def add_rejects(self, tracefile, rejects, signature, keyfield="id", describe=None):
         """Map rejected ids back to their recorded lines, store replay files, classify."""
